@@ -63,6 +63,20 @@ func runC02(r *run) {
 					hexList([]string{"verifprobe"}), hexList([]string{"verifprobetag"}))})
 			}
 		}
+		// `safe` on one operand of a printed expression is not an opt-out for the other operands
+		for _, src := range []string{
+			`{{ "Hello "|safe + s1 }}`, `{{ s1 + " x"|safe }}`, `{{ "a"|safe + s1 + "b"|safe }}`, `{{ s1|safe + s2 }}`, `{{ s2 + s1|safe }}`,
+			`{{ lst.0 + s2|safe }}`, `{{ "p"|safe + m.k }}`, `{% firstof ""|safe + s1 %}`, `{% firstof e|safe + s2 "z" %}`, `{% firstof e s1 + "q"|safe %}`,
+			`{% with q="z"|safe + s1 %}{{ q }}{% endwith %}`, `{% for x in lst %}{{ "i"|safe + x }}{% endfor %}`, `{% cycle "a"|safe + s1 s2 %}`,
+			`{{ "a"|safe + (s1) }}`, `{{ ("a"|safe) + s1 }}`, `{{ "n"|safe + n1 + s1 }}`, `{% if b1 or not b1 %}{{ s1 + s2|safe + s1 }}{% endif %}`,
+			`{{ "x"|safe * 2 + s1 }}`, `{{ s1 + 1|safe }}`, `{{ 1|safe + s1 }}`,
+		} {
+			g := newProgGen(rg.fork(11))
+			g.taint = c02Marker
+			for v := 0; v < 2; v++ {
+				emit(caseT{"render", (&world{}).args(src, g.context(v))})
+			}
+		}
 		// values Go code passes with a String method, a cycle value, map keys, nested data
 		for _, src := range []string{"{{ sg }}", "{{ psg }}", "{% for x in sgl %}{{ x }}{% endfor %}", "{% with y=sg %}{{ y }}{% endwith %}",
 			"{% cycle s1 s2 as row silent %}{{ row }}", "{% for k, v in tm sorted %}{{ k }}{{ v }}{% endfor %}", "{{ sg|upper }}", "{% firstof sg %}"} {
